@@ -122,9 +122,14 @@ impl Database {
 
     /// Get the version of a database without decrypting it
     pub fn get_version(source: &mut dyn std::io::Read) -> Result<DatabaseVersion, DatabaseIntegrityError> {
+        use std::io::Read;
+
+        // a single `read` may legally return fewer bytes than requested: read until the version
+        // header is complete or the source is exhausted
         let mut data = Vec::new();
-        data.resize(DatabaseVersion::get_version_header_size(), 0);
-        source.read(&mut data)?;
+        source
+            .take(DatabaseVersion::get_version_header_size() as u64)
+            .read_to_end(&mut data)?;
         DatabaseVersion::parse(data.as_ref())
     }
 
